@@ -63,7 +63,9 @@ def run_case(case):
     mu = clique_marginals(mbi, domain, model.cliques, attrs, Y)
     loss, grad = eng._marginal_loss(mu)
     ref = inf.loss_from_answers(meas, lambda proj: oracles.marg(Y, attrs, proj), metric)
-    if not np.isfinite(loss) or abs(loss - ref) > 1e-9 * (abs(ref) + 1e-12) + 1e-12:
+    # numerical floor: a loss is only resolved relative to the size of its terms (loss of the all-zero table)
+    floor = 1e-12 * (inf.loss_from_answers(meas, lambda proj: np.zeros([shape[attrs.index(a)] for a in proj]), metric) + float(total) ** 2 + 1.0)
+    if not np.isfinite(loss) or abs(loss - ref) > 1e-9 * abs(ref) + floor:
         out.fail('mismatch:loss', 'loss %r, stated objective %r (%d measurements, cliques %s)' % (loss, ref, len(meas), model.cliques))
     # (b) gradient is the derivative of the loss
     if out.ok:
@@ -116,7 +118,7 @@ def run_case(case):
             out.fail('mismatch:spelling', 'model cliques differ between spellings: %s vs %s' % (eng2.model.cliques, model.cliques))
         else:
             loss2, grad2 = eng2._marginal_loss(mu)
-            if abs(loss2 - loss) > 1e-10 * (abs(loss) + 1e-12) + 1e-12:
+            if abs(loss2 - loss) > 1e-10 * abs(loss) + floor:
                 out.fail('mismatch:spelling', 'loss %r with canonical spelling, %r with alternative spelling' % (loss, loss2))
         if out.ok:
             # public path
